@@ -14,7 +14,7 @@ rm -f "$VERIF/.bin/check.setup"
 # the overlay builds (what bin/check.sh really runs)
 OV="$VERIF/.bin/ov.setup"
 rm -rf "$OV"; mkdir -p "$OV"
-if go run ./cmd/overlaygen -repo /repo -rt "$VERIF/mc/schedrt" -out "$OV" . band backend/joinserver backend applayer/clocksync applayer/multicastsetup applayer/fragmentation applayer/firmwaremanagement airtime gps > "$OV/gen.log" 2>&1; then
+if go run ./cmd/overlaygen -recv band,backend/joinserver -repo /repo -rt "$VERIF/mc/schedrt" -out "$OV" . band backend/joinserver backend applayer/clocksync applayer/multicastsetup applayer/fragmentation applayer/firmwaremanagement airtime gps > "$OV/gen.log" 2>&1; then
   go build -tags verif -overlay "$OV/overlay.json" -o "$OV/check" ./cmd/check || echo "setup: overlay build of cmd/check failed"
   go build -tags "verif sched" -overlay "$OV/overlay.json" -o "$OV/sched" ./cmd/schedcheck || echo "setup: overlay build of cmd/schedcheck failed"
 else
